@@ -253,23 +253,39 @@ func TestVerif_C15_TCPMux(t *testing.T) {
 					continue
 				}
 				h := hs[len(hs)-1]
+				// order is guaranteed per TCP connection (source address), not across connections: the reader's
+				// stream filtered by source must equal what that source sent
 				for len(expect[u]) > 0 {
-					want := expect[u][0]
 					_ = h.SetReadDeadline(time.Now().Add(20 * time.Second))
 					buf := make([]byte, 9000)
 					n, addr, err := h.ReadFrom(buf)
 					if err != nil {
-						fail("C15/deliver/missing", "%s: ufrag %s: expected packet (%d bytes from %s) not readable: %v", where, u, len(want.data), want.from, err)
+						fail("C15/deliver/missing", "%s: ufrag %s: %d expected packet(s) not readable (first: %d bytes from %s): %v", where, u, len(expect[u]), len(expect[u][0].data), expect[u][0].from, err)
 						expect[u] = nil
 
 						break
 					}
-					expect[u] = expect[u][1:]
-					if !bytes.Equal(buf[:n], want.data) {
-						fail("C15/deliver/content-or-order", "%s: ufrag %s: got %d bytes, want %d bytes from %s", where, u, n, len(want.data), want.from)
+					from := ""
+					if addr != nil {
+						from = addr.String()
 					}
-					if addr == nil || addr.String() != want.from {
-						fail("C15/deliver/peer-address", "%s: ufrag %s: packet attributed to %v, sent by %s", where, u, addr, want.from)
+					idx := -1
+					for k, e := range expect[u] {
+						if e.from == from {
+							idx = k
+
+							break
+						}
+					}
+					if idx < 0 {
+						fail("C15/deliver/peer-address", "%s: ufrag %s: packet of %d bytes attributed to %q, nothing is expected from there", where, u, n, from)
+
+						break
+					}
+					want := expect[u][idx]
+					expect[u] = append(expect[u][:idx], expect[u][idx+1:]...)
+					if !bytes.Equal(buf[:n], want.data) {
+						fail("C15/deliver/content-or-order", "%s: ufrag %s: from %s got %d bytes, the next packet of that source has %d bytes", where, u, from, n, len(want.data))
 					}
 				}
 				// nothing else may be queued for this ufrag
